@@ -1,8 +1,12 @@
 #![allow(clippy::all)]
 pub mod drive;
 pub mod e1;
+pub mod e2;
+#[allow(dead_code)]
+mod client_rt;
 pub mod ev;
 pub mod gen;
+pub mod prog;
 pub mod props;
 pub mod tape;
 pub mod tok;
